@@ -343,9 +343,11 @@ def eval_dyad_find(a, b, backend):
     elif is_dict(a):
         v = a.get(b)
         return KLONG_UNDEFINED if v is None else v
-    if is_list(b):
-        return bknp.asarray([i for i,x in enumerate(a) if backend.kg_equal(x, b)])
-    return bknp.where(bknp.asarray(a) == b)[0]
+    arr = bknp.asarray(a)
+    if is_list(b) or arr.ndim > 1 or arr.dtype == object:
+        # elements of "a" may themselves be lists: an element is found when it matches "b" as a whole
+        return bknp.asarray([i for i,x in enumerate(a) if backend.kg_equal(x, b)], dtype=int)
+    return bknp.where(arr == b)[0]
 
 
 def __e_dyad_form(a, b, backend):
